@@ -18,6 +18,39 @@ thread_local! {
 }
 
 /// Install a silent panic hook that records message + location per thread.
+/// A logger at Trace level that formats every record into a scratch buffer and throws it away: the library's `log`
+/// macros evaluate their arguments only when the level is enabled, so without it every expression inside a
+/// `debug!(..)` is dead code for the checks (the process-wide log level is part of the environment).
+struct FormattingSink;
+
+impl log::Log for FormattingSink {
+    fn enabled(&self, _m: &log::Metadata) -> bool {
+        true
+    }
+    fn log(&self, record: &log::Record) {
+        use std::fmt::Write as _;
+        thread_local! { static SCRATCH: std::cell::RefCell<String> = std::cell::RefCell::new(String::new()); }
+        SCRATCH.with(|s| {
+            if let Ok(mut s) = s.try_borrow_mut() {
+                s.clear();
+                let _ = write!(s, "{}", record.args());
+            }
+        });
+    }
+    fn flush(&self) {}
+}
+
+/// `VERIF_LOG=off` leaves the log level at its default (Off).
+pub fn install_logger() {
+    if std::env::var("VERIF_LOG").map(|v| v == "off").unwrap_or(false) {
+        return;
+    }
+    static SINK: FormattingSink = FormattingSink;
+    if log::set_logger(&SINK).is_ok() {
+        log::set_max_level(log::LevelFilter::Trace);
+    }
+}
+
 pub fn install_panic_hook() {
     std::panic::set_hook(Box::new(|info| {
         let msg = if let Some(s) = info.payload().downcast_ref::<&str>() {
